@@ -28,6 +28,18 @@ Theorem C15_at_most_once : forall nw maxq progs s, preach nw maxq (pinit nw prog
 Proof. intros nw maxq progs s Hr k. split; [exact (at_most_once nw maxq progs s Hr k)|exact (accounting nw maxq progs s Hr k)]. Qed.
 Print Assumptions C15_at_most_once.
 
+(* Every run(k) call of every client program is decided exactly once - accepted, rejected because
+   the pool had been stopped, or executed inline - or is still pending (in progress / not reached);
+   hence tasks that are submitted once each are executed at most once each. *)
+Theorem C15_every_run_decided_once : forall nw maxq progs s, preach nw maxq (pinit nw progs) s ->
+  (forall k, count_occ Nat.eq_dec (accepted (evs s)) k + count_occ Nat.eq_dec (rejected (evs s)) k +
+             count_occ Nat.eq_dec (inlined (evs s)) k + count_occ Nat.eq_dec (pending s) k =
+             count_occ Nat.eq_dec (submitted progs) k) /\
+  (NoDup (submitted progs) ->
+     forall k, count_occ Nat.eq_dec (started (evs s)) k + count_occ Nat.eq_dec (inlined (evs s)) k <= 1).
+Proof. exact every_run_decided_once. Qed.
+Print Assumptions C15_every_run_decided_once.
+
 (* ... and exactly once unless stop() intervenes while it is still queued: when nothing but a
    spurious wake-up can happen any more, no worker holds a task, every accepted task has been
    started or is still in the queue, and the queue can only be non-empty if stop()'s first block
